@@ -235,6 +235,8 @@ CONTEXTS = {
     # guarded (compiled expressions and other per-template caches must not remember the unguarded mode)
     'plain-subtemplate-used-unguarded-before': (None, None),
     'guarded-template-used-in-plain-before': (None, None),
+    # ... or under another template class whose own guards allow everything (two applications sharing a library of templates)
+    'plain-subtemplate-used-under-another-guard-before': (None, None),
 }
 
 
@@ -277,6 +279,19 @@ def _run_case(ch, cls, secret, syn='html', ctx='plain', deny=None):
         kw['inner_tpl'] = _PlainHTML(text)
         try:
             kw['inner_tpl'](client, **kw) if client is not None else kw['inner_tpl'](**kw)
+        except BaseException:  # noqa
+            pass
+        text = '<dtml-var inner_tpl>'
+    elif ctx == 'plain-subtemplate-used-under-another-guard-before':
+        kw['inner_tpl'] = _PlainHTML(text)
+        lenient = _CLS.get('lenient')
+        if lenient is None:
+            lenient = _CLS['lenient'] = type('LenientHTML', (_PlainHTML,), {
+                'guarded_getattr': staticmethod(lambda ob, name: getattr(ob, name)),
+                'guarded_getitem': staticmethod(lambda ob, index: ob[index])})
+        try:
+            o_ = lenient('<dtml-var inner_tpl>')
+            o_(client, **kw) if client is not None else o_(**kw)
         except BaseException:  # noqa
             pass
         text = '<dtml-var inner_tpl>'
